@@ -6,7 +6,7 @@ import itertools
 import random
 
 DEV_DEFAULTS = dict(ups=[], cyc=0, cap=-1, delay=0, budget=-1, pval=0, bsrc=-1, bmix=False, bsize=0, req={}, pred='all',
-                    vadd=0, qset=0, qinc=False, cycmod=0, offmod=0, foff=0, late=False,
+                    vadd=0, qset=0, qinc=False, cycmod=0, offmod=0, offmod2=0, foff=0, late=False,
                     wodur=0, wocap=0, wocost=0, gin=0, gout=0, vups=[], members=[], inputs=[], outputs=[])
 
 
@@ -63,7 +63,7 @@ def is_serial(cfg):
             return False
         if 0 < i < len(devs) - 1 and d['kind'] not in ('handler', 'processor', 'buffer'):
             return False
-        if d['cycmod'] or d['offmod'] or d['foff'] or d['req']:
+        if d['cycmod'] or d['offmod'] or d['offmod2'] or d['foff'] or d['req']:
             return False
     return True
 
@@ -285,6 +285,17 @@ def gen_targeted(rng, count=60):
                       dict(t=t1 + rng.choice([3, 4, 6]), call='restore', dev=2, prio=rng.choice([20, 90]))]
             cfg = dict(devs=devs, script=script, horizon=H, pools={'A': 1})
             fam = 'fail-in-maintenance'
+        elif kind == 1 and i % 16 == 1:   # two machines whose outages overlap, the one shut down later is restored first
+            devs = [src(1, rng.choice([3, 5, -1]), pval=1), dev('processor', [1], cyc=rng.choice([8, 10])),
+                    dev('buffer', [2], cap=2, delay=0), dev('processor', [3], cyc=rng.choice([8, 10, 12])), dev('sink', [4], cyc=0)]
+            t1 = rng.choice([13, 14, 15])
+            script = [dict(t=t1, call='shutdown', dev=2), dict(t=t1 + 3, call='shutdown', dev=4),
+                      dict(t=t1 + 5, call='restore', dev=4), dict(t=t1 + 7, call='restore', dev=2)]
+            if rng.random() < 0.5:
+                script = [dict(t=t1, call='shutdown', dev=4), dict(t=t1 + 3, call='shutdown', dev=2),
+                          dict(t=t1 + 5, call='restore', dev=2), dict(t=t1 + 7, call='restore', dev=4)]
+            cfg = dict(devs=devs, script=script, horizon=H + 24)
+            fam = 'overlapping-outages'
         elif kind == 1:      # two shutdown / restore pairs within one part
             c = rng.choice([8, 10, 12])
             a = rng.choice([1, 2, 3])
@@ -311,8 +322,8 @@ def gen_targeted(rng, count=60):
             fam = 'contention'
         elif kind == 3:      # zero-length cycles and one-shot offsets from receive and finish callbacks
             devs = [src(rng.choice([1, 2, 3]), rng.choice([5, 8, -1]), pval=1),
-                    dev('processor', [1], cyc=rng.choice([0, 1, 4]), offmod=rng.choice([0, -3, -10, 2]), foff=rng.choice([0, 1, 3]),
-                        cycmod=rng.choice([0, 0, 2, 3])),
+                    dev('processor', [1], cyc=rng.choice([0, 1, 2, 4]), offmod=rng.choice([0, -3, -5, -10, 2]),
+                        offmod2=rng.choice([0, 0, 3, 2]), foff=rng.choice([0, 1, 3]), cycmod=rng.choice([0, 0, 2, 3])),
                     dev('sink', [2], cyc=rng.choice([0, 1]))]
             cfg = dict(devs=devs, horizon=H)
             fam = 'offsets'
@@ -330,6 +341,21 @@ def gen_targeted(rng, count=60):
                     c['dev'] = 2
             cfg = dict(devs=devs, script=script, horizon=H, pools={'A': rng.choice([1, 2])})
             fam = 'between-runs'
+        elif kind == 6 and i % 32 >= 16:   # machines behind pass-through branches, parts piling up in a buffer first
+            devs = [src(rng.choice([1, 2]), rng.choice([4, 6, 9]), pval=1),
+                    dev('buffer', [1], cap=-1, delay=0),
+                    dev(rng.choice(['gate', 'junction']), [2]), dev(rng.choice(['gate', 'junction']), [2]),
+                    dev('processor', [3], cyc=rng.choice([2, 3, 5])), dev('processor', [3], cyc=rng.choice([2, 4])),
+                    dev('processor', [4], cyc=rng.choice([1, 3])),
+                    dev('sink', [5, 6, 7], cyc=0)]
+            t0 = rng.choice([4, 6, 8])
+            script = [dict(t=0, prio=115, call='block', dev=3), dict(t=0, prio=115, call='block', dev=4),
+                      dict(t=0, prio=115, call='shutdown', dev=5), dict(t=0, prio=115, call='shutdown', dev=6),
+                      dict(t=0, prio=115, call='shutdown', dev=7),
+                      dict(t=1, call='restore', dev=5), dict(t=3, call='restore', dev=7), dict(t=4, call='restore', dev=6),
+                      dict(t=t0, call='unblock', dev=3), dict(t=t0, call='unblock', dev=4)]
+            cfg = dict(devs=devs, script=script, horizon=H + 8)
+            fam = 'idle-longest'
         elif kind == 6:   # parallel machines, one blocked for a while from (nearly) the start: idle longest
             k = rng.choice([2, 2, 3])
             devs = [src(rng.choice([3, 4, 6]), rng.choice([6, 9, -1]), pval=1)]
